@@ -18,9 +18,9 @@ from families import common
 SOURCES = ["drv_interp.c", "vt.c", "vt_alloc.c"]
 MODES = ("vec", "rng", "cal", "noise", "sigma")
 COUNTS = {
-    "quick": {"vec": 320, "rng": 320, "cal": 132, "noise": 84, "sigma": 63},
-    "thorough": {"vec": 12000, "rng": 12000, "cal": 3960, "noise": 1680,
-                 "sigma": 1260},
+    "quick": {"vec": 320, "rng": 320, "cal": 132, "noise": 96, "sigma": 80},
+    "thorough": {"vec": 12000, "rng": 12000, "cal": 3960, "noise": 1920,
+                 "sigma": 1600},
 }
 
 
@@ -87,12 +87,14 @@ def _argclass(ev, lines):
         k = c.get("k", [])
         q = ev.get("q", [])
         cls = sorted({_xclass(k, x) for x in q})
-        return "%s%dp:%s:%s:%s" % (c.get("type"), c.get("p", 0),
-                                    c.get("cls"), _nclass(len(k)),
-                                    "+".join(cls))
+        return "%s%dp:%s:%s:vstd%s:%s" % (c.get("type"), c.get("p", 0),
+                                           c.get("cls"), _nclass(len(k)),
+                                           c.get("vstd", 0), "+".join(cls))
     if e == "CalMake":
-        return "%s%dp:%s:%s" % (ev.get("type"), ev.get("p", 0), ev.get("cls"),
-                                _nclass(len(ev.get("k", []))))
+        return "%s%dp:%s:%s:vstd%s" % (ev.get("type"), ev.get("p", 0),
+                                       ev.get("cls"),
+                                       _nclass(len(ev.get("k", []))),
+                                       ev.get("vstd", 0))
     if e == "AddVec":
         return ev.get("form", "?")
     if e == "SetMErr":
